@@ -278,7 +278,7 @@ fn ask(src: &str) -> Answer {
     })
 }
 
-fn literals() -> Vec<String> {
+pub fn literals() -> Vec<String> {
     vec![
         "min 1\ns.t.\n    x >= a\nwhere\n    let a = -9223372036854775807 - 1\n    let b = -a\ndefine\n    x as Real".into(),
         "min x\ns.t.\n    x >= 1\ndefine\n    x as IntegerRange(0, 99999999999)".into(),
@@ -406,5 +406,32 @@ impl Prop for C18 {
                 }
             }
         }
+    }
+}
+
+/// Writes a seed corpus for the libFuzzer target: the literal programs and a fixed sample of the
+/// structured generator (unmutated and mutated).
+pub fn dump_corpus(dir: &str) {
+    use proptest::strategy::ValueTree;
+    use proptest::test_runner::{Config, RngAlgorithm, TestRng, TestRunner};
+    std::fs::create_dir_all(dir).unwrap();
+    let mut n = 0;
+    let mut put = |text: String| {
+        std::fs::write(format!("{dir}/seed_{n:03}.rooc"), text).unwrap();
+        n += 1;
+    };
+    for l in literals().into_iter().chain(crate::props::c19::literals()) {
+        put(l);
+    }
+    let mut runner = TestRunner::new_with_rng(Config::default(), TestRng::from_seed(RngAlgorithm::ChaCha, &[7u8; 32]));
+    let strategy = C18.strategy(Tier::Quick);
+    let mut kept = 0;
+    while kept < 120 {
+        let case = strategy.new_tree(&mut runner).unwrap().current();
+        if matches!(case.base, Base::Noise(_)) {
+            continue;
+        }
+        put(case.text());
+        kept += 1;
     }
 }
